@@ -331,9 +331,11 @@ class SsbGraphMinimizer:
 
     def build_and_group_switch_cases(self) -> None:
         logger.debug("Building switches...")
+        # The ids are unique in the whole file, they are part of the names of the labels which are written for switch
+        # branches that are entered by more than one case (labels are not local to a routine).
+        current_switch_id = -1
         for i, g in enumerate(self._graphs):
             vs_to_delete: set[Vertex | int] = set()
-            current_switch_id = -1
             for v in g.vs:
                 if v["op"].op_code.name in OPS_SWITCH_CASE_MAP.keys() and v not in vs_to_delete:
                     current_switch_id += 1
